@@ -4,6 +4,7 @@ import (
 	"fmt"
 	"runtime"
 	"strings"
+	"unsafe"
 
 	"verifsim/engine"
 )
@@ -60,6 +61,9 @@ func (r Readers) Execute(pl engine.Plan, c *engine.RunCtx) *engine.Failure {
 		return fmt.Sprintf("task %d op %d %s(obj=%d a=%d b=%d c=%d)", t, i, op.Fn, op.Obj, op.A, op.B, op.C)
 	}
 	faultFail := func(step int, t, i int, o *rOutcome) *engine.Failure {
+		if o.guard {
+			return engine.Failf("C19.overrun", step, "%s accessed memory BEYOND THE END of one of its arguments (the argument ends at an inaccessible guard page): what lies there is not an argument, so the result depends on it or a neighbour's writes conflict with the read: %v", opName(t, i), o.pan)
+		}
 		return engine.Failf("C19.write", step, "%s wrote to a read-only shared input at arena offset %#x: %v", opName(t, i), o.fault-w.arena.baseAddr(), o.pan)
 	}
 	ref := make([][]rOutcome, len(p.Tasks))
@@ -183,6 +187,65 @@ func (r Readers) Execute(pl engine.Plan, c *engine.RunCtx) *engine.Failure {
 			}
 			if outs[t][i].contentHash() != outs[t][i].hash {
 				return engine.Failf("C19.retain", step, "%s: the result returned under the schedule changed afterwards (it aliases memory a later call overwrote): now %s", opName(t, i), outs[t][i].describe())
+			}
+		}
+	}
+	// ---- phase 4: the OWNER of a result may write into it. Every result slice
+	// that does not share memory with an input is overwritten with junk, then
+	// every operation is executed once more: a result that shares memory with
+	// package state (a table row handed out as a result) or with another result
+	// makes the later calls differ.
+	// a slice is contiguous: whether it shares memory with an input is decided
+	// by its first and last element
+	scribble := func(o *rOutcome) {
+		if n := len(o.words); n > 0 && !w.arena.contains(uintptr(unsafe.Pointer(&o.words[0]))) && !w.arena.contains(uintptr(unsafe.Pointer(&o.words[n-1]))) {
+			for i := range o.words {
+				o.words[i] = 0xeeeeeeeeeeee0000 | uint64(i&0xffff) // idempotent: two results sharing memory must not cancel out
+			}
+		}
+		if n := len(o.i32s); n > 0 && !w.arena.contains(uintptr(unsafe.Pointer(&o.i32s[0]))) && !w.arena.contains(uintptr(unsafe.Pointer(&o.i32s[n-1]))) {
+			for i := range o.i32s {
+				o.i32s[i] = 0x6e6e0000 | int32(i&0xffff)
+			}
+		}
+		if n := len(o.bytes); n > 0 && !w.arena.contains(uintptr(unsafe.Pointer(&o.bytes[0]))) && !w.arena.contains(uintptr(unsafe.Pointer(&o.bytes[n-1]))) {
+			for i := range o.bytes {
+				o.bytes[i] = 0xee
+			}
+		}
+		for _, b := range o.bss {
+			if n := len(b); n > 0 && !w.arena.contains(uintptr(unsafe.Pointer(&b[0]))) && !w.arena.contains(uintptr(unsafe.Pointer(&b[n-1]))) {
+				for i := range b {
+					b[i] = 0xee
+				}
+			}
+		}
+	}
+	refHash := make([][]uint64, len(p.Tasks))
+	for t := range p.Tasks {
+		refHash[t] = make([]uint64, len(p.Tasks[t]))
+		for i := range p.Tasks[t] {
+			refHash[t][i] = ref[t][i].hash
+		}
+	}
+	for t := range p.Tasks {
+		for i := range p.Tasks[t] {
+			scribble(&ref[t][i])
+			scribble(&outs[t][i])
+		}
+	}
+	for t, ops := range p.Tasks {
+		for i, op := range ops {
+			step := 200000 + t*1000 + i
+			c.Status.SetStep(uint64(step), 1)
+			again := execOp(w, op, false, pz[0])
+			c.Status.SetStep(uint64(step), 0)
+			c.LibCalls++
+			if again.fault != 0 {
+				return faultFail(step, t, i, &again)
+			}
+			if again.hash != refHash[t][i] {
+				return engine.Failf("C19.result_shared", step, "%s: after the owners of earlier results wrote into them, the same call returns something else (%s): some result shares memory with package state or with another call's result", opName(t, i), again.describe())
 			}
 		}
 	}
